@@ -392,7 +392,9 @@ def canon_cls(oracle_or_tab, cls, by_cls, stack=(), key_of=None):
 def canon_t(T, by_cls, st, key_of=None):
     org = typing.get_origin(T)
     if org is Union:
-        return ("U", frozenset(canon_t(a, by_cls, st, key_of) for a in typing.get_args(T)))
+        # two distinct classes of identical structure (duplicate names with numeric suffixes) are one type here
+        ms = frozenset(canon_t(a, by_cls, st, key_of) for a in typing.get_args(T))
+        return next(iter(ms)) if len(ms) == 1 else ("U", ms)
     if org in (list, List):
         return ("L", canon_t(typing.get_args(T)[0], by_cls, st, key_of))
     if org in (dict, Dict):
